@@ -102,7 +102,12 @@ def recipe_cases(chk):
 def recipe_oracle(prog, rg, out, qres):
     from props import C09
     fails, known = C09.oracle(prog, rg, out, qres)
-    return ["recipe remove step: what usage tracking reports as discarded differs from what the step removed -- " + f for f in fails], known
+    fails = ["recipe remove step: what usage tracking reports as discarded differs from what the step removed -- " + f for f in fails]
+    # the baked objects against the same steps applied directly to the wells the generator addressed (however the operand was spelled)
+    from props import C08
+    f8, k8 = C08.oracle(prog, rg, out, qres)
+    fails += ["recipe with remove steps: " + f for f in f8]
+    return fails, known + k8
 
 
 def recipe_nontrivial(prog, rg, out, qres):
